@@ -53,6 +53,8 @@ type clntStep struct {
 type clntScript struct {
 	swd, wr, fl bool
 	steps       []clntStep
+	timerT      time.Duration // the ReadTimeout to configure when the script has a timer step (0: clntTimerT)
+	gate        *clntGate     // stream cpar: every Read waits for the other clients of the batch
 }
 
 func (s clntScript) val() V {
@@ -91,6 +93,53 @@ func (s clntScript) deadlineStep() int {
 		}
 	}
 	return -1
+}
+
+// clntRollingReq is a user-defined packet.Request (wrapping a real one) whose Bytes() is not
+// idempotent: the k-th call returns the bytes with the first byte increased by k-1.  Every call is
+// recorded in the trace as [7].
+type clntRollingReq struct {
+	packet.Request
+	calls int
+	rec   *clntRec
+}
+
+func (r *clntRollingReq) Bytes() []byte {
+	r.calls++
+	if r.rec != nil {
+		r.rec.add(L(I(7)))
+	}
+	b := append([]byte(nil), r.Request.Bytes()...)
+	b[0] += byte(r.calls - 1)
+	return b
+}
+
+// clntGate is a cyclic barrier for the clients of one cpar batch: a Read returns only when all of
+// them have reached their Read (or after a short time, if one of them has left early), so that all
+// calls are inside Do at the same time
+type clntGate struct {
+	mu      sync.Mutex
+	n       int
+	arrived int
+	ch      chan struct{}
+}
+
+func clntNewGate(n int) *clntGate { return &clntGate{n: n, ch: make(chan struct{})} }
+
+func (g *clntGate) wait() {
+	g.mu.Lock()
+	g.arrived++
+	ch := g.ch
+	if g.arrived >= g.n {
+		g.arrived = 0
+		g.ch = make(chan struct{})
+		close(ch)
+	}
+	g.mu.Unlock()
+	select {
+	case <-ch:
+	case <-time.After(150 * time.Millisecond):
+	}
 }
 
 // ---------- recorder and hooks ----------
@@ -162,6 +211,9 @@ func (t *clntTransport) Read(p []byte) (int, error) {
 	}
 	st := t.sc.steps[t.pos]
 	t.pos++
+	if t.sc.gate != nil {
+		t.sc.gate.wait()
+	}
 	n := 0
 	var err error
 	switch st.rd {
@@ -307,16 +359,23 @@ func clntProject(resp packet.Response, err error) V {
 		}
 		return vErr(append([]V{nilv, I(1)}, projErrTail(ce.Err)...)...)
 	}
-	if errors.Is(err, context.Canceled) {
+	if err == context.Canceled {
 		return vErr(nilv, I(0), I(60))
 	}
-	if errors.Is(err, context.DeadlineExceeded) {
+	if err == context.DeadlineExceeded {
 		return vErr(nilv, I(0), I(61))
+	}
+	if errors.Is(err, context.Canceled) {
+		return vErr(nilv, I(0), I(62)) // wraps it, but is not the context's error itself
+	}
+	if errors.Is(err, context.DeadlineExceeded) {
+		return vErr(nilv, I(0), I(63))
 	}
 	return vErr(append([]V{nilv, I(0)}, projErrTail(err)...)...)
 }
 
 var clntErrDial = errors.New("scripted: dial fails")
+var clntErrCause = errors.New("scripted: the caller's reason for cancelling")
 
 // how long a call may take before it is reported as not returning (the scripted outcomes need
 // milliseconds, the timer cases well under a second)
@@ -340,7 +399,7 @@ type clntClient struct {
 
 // clntCtors: how many constructor variants with a configuration there are for a kind (variant 4,
 // the constructors without configuration, is handled by clntRunBlind)
-var clntCtors = [3]int{4, 3, 3}
+var clntCtors = [3]int{4, 4, 3}
 
 func clntNewClient(kind int, port, flusher, hooks bool, timeout time.Duration, ctor int) *clntClient {
 	cc := &clntClient{kind: kind, rec: &clntRec{}, timeout: timeout}
@@ -404,6 +463,10 @@ func clntNewClient(kind int, port, flusher, hooks bool, timeout time.Duration, c
 	rtuFuncs := func() {
 		conf.AsProtocolErrorFunc, conf.ParseResponseFunc = packet.AsRTUErrorPacketWithCRC, packet.ParseRTUResponseWithCRC
 	}
+	// the RTU functions that do NOT check the CRC (what the library's own TestWithOptions passes)
+	rtuFuncsNoCRC := func() {
+		conf.AsProtocolErrorFunc, conf.ParseResponseFunc = packet.AsRTUErrorPacket, packet.ParseRTUResponse
+	}
 	if kind == 0 {
 		switch ctor {
 		case 1:
@@ -412,7 +475,7 @@ func clntNewClient(kind int, port, flusher, hooks bool, timeout time.Duration, c
 			tcpFuncs()
 			cc.net = modbus.NewClient(conf)
 		case 3:
-			rtuFuncs() // must be overridden
+			rtuFuncsNoCRC() // must be overridden
 			cc.net = modbus.NewTCPClientWithConfig(conf)
 		default:
 			cc.net = modbus.NewTCPClientWithConfig(conf)
@@ -424,6 +487,9 @@ func clntNewClient(kind int, port, flusher, hooks bool, timeout time.Duration, c
 			cc.net = modbus.NewClient(conf)
 		case 2:
 			tcpFuncs() // must be overridden
+			cc.net = modbus.NewRTUClientWithConfig(conf)
+		case 3:
+			rtuFuncsNoCRC() // must be overridden by the CRC-checking ones
 			cc.net = modbus.NewRTUClientWithConfig(conf)
 		default:
 			cc.net = modbus.NewRTUClientWithConfig(conf)
@@ -511,7 +577,10 @@ func (cc *clntClient) close() V {
 // do performs one call with the given script; returns [result, trace] and whether the timing
 // was unreliable
 func (cc *clntClient) do(rq *clntRq, sc clntScript, try int) ([]V, bool) {
-	ctx, cancel := context.WithCancel(context.Background())
+	// the caller cancels with a custom cause, and its deadline has one too: the call must still
+	// return ctx.Err() (context.Canceled / context.DeadlineExceeded), not context.Cause(ctx)
+	ctx, cancelCause := context.WithCancelCause(context.Background())
+	cancel := func() { cancelCause(clntErrCause) }
 	defer cancel()
 	var ctxEnd time.Time
 	if d := sc.deadlineStep(); d >= 0 {
@@ -521,7 +590,7 @@ func (cc *clntClient) do(rq *clntRq, sc clntScript, try int) ([]V, bool) {
 			ctxEnd = time.Now().Add(-time.Second)
 		}
 		var cancel2 context.CancelFunc
-		ctx, cancel2 = context.WithDeadline(ctx, ctxEnd)
+		ctx, cancel2 = context.WithDeadlineCause(ctx, ctxEnd, clntErrCause)
 		defer cancel2()
 	}
 	tr := cc.tr
@@ -550,6 +619,9 @@ func (cc *clntClient) do(rq *clntRq, sc clntScript, try int) ([]V, bool) {
 	var req packet.Request
 	if rq != nil {
 		req = rq.req
+		if rr, ok := req.(*clntRollingReq); ok {
+			rr.calls, rr.rec = 0, cc.rec
+		}
 	}
 	if len(sc.steps) > 0 && sc.steps[0].ctx == 1 {
 		cancel()
@@ -590,6 +662,9 @@ func (cc *clntClient) do(rq *clntRq, sc clntScript, try int) ([]V, bool) {
 func clntTimeoutFor(try int, scripts ...clntScript) time.Duration {
 	for _, sc := range scripts {
 		if sc.hasTimer() {
+			if sc.timerT > 0 {
+				return sc.timerT << uint(try)
+			}
 			return clntTimerT << uint(try)
 		}
 	}
